@@ -26,7 +26,8 @@ META = {
                  "comparison of the real evaluator with the model's exact evaluation",
     "design_ref": "DESIGN.md §5 C10",
     "text": "check_ddnnf soundness and eval_is_wmc are theorems without size bound; the instances checked are the "
-            "circuits dsharp/_load_nnf produce for generated programs and CNFs (sampled).",
+            "circuits dsharp/_load_nnf produce for generated programs and CNFs (sampled)."
+            " C10_labels_sound: every name->key label accepted by the model of _load_nnf's labelling rule denotes the same CNF literal in the compiled circuit (all cases).",
     "note": "Trusted: Coq kernel, extraction (ExtrOcamlBasic) + gen/c10_driver.ml, the Python dump of DDNNF objects "
             "(nodes, names, weights, constraints) and the DIMACS parser in this file.",
 }
